@@ -372,7 +372,7 @@ VARIANTS = [
     ("marginal_identity_hoisted", _F, "    for d in variable.domain:\n        # for each value d in the domain of v, calculate min cost (a)\n        # where a is any assignment where v = d\n        # cost (a) = f(a) + sum( costvar())\n        # where costvar is the cost received from our other variables\n\n        optimal_value = float(\"inf\") if mode == \"min\" else -float(\"inf\")\n",
      "    optimal_value = float(\"inf\") if mode == \"min\" else -float(\"inf\")\n    for d in variable.domain:\n", "break", "R-MODE.c"),
     ("marginal_includes_target", _F, "                if another_var == variable.name:\n                    continue\n", "", "break", "R-MARGINAL"),
-    ("marginal_dims_alias", _F, "    other_vars = factor.dimensions[:]\n    other_vars.remove(variable)\n\n    # for each", "    other_vars = factor.dimensions\n    other_vars.remove(variable)\n\n    # for each", "break", "R-MARGINAL"),
+    ("marginal_dims_alias", _F, "    other_vars = factor.dimensions[:]\n    other_vars.remove(variable)\n", "    other_vars = factor.dimensions\n    other_vars.remove(variable)\n", "break", "R-MARGINAL"),
     ("varmsg_includes_recipient", _F, "            if f == factor or f not in costs:\n                continue", "            if f not in costs:\n                continue", "break", "R-MARGINAL"),
     ("varmsg_no_own_cost", _F, "    msg_costs = {d: variable.cost_for_val(d) for d in variable.domain}", "    msg_costs = {d: 0 for d in variable.domain}", "break", "R-MARGINAL"),
     ("select_minmax_swapped", _F, "    if mode == \"min\":\n        optimal_d = min(d_costs.items(), key=itemgetter(1))\n    else:\n        optimal_d = max(d_costs.items(), key=itemgetter(1))", "    if mode == \"min\":\n        optimal_d = max(d_costs.items(), key=itemgetter(1))\n    else:\n        optimal_d = min(d_costs.items(), key=itemgetter(1))", "break", "R-MODE.b"),
